@@ -61,6 +61,10 @@ type link struct {
 	ordinal  int // k-th link of its endpoint
 	onData   func()
 	hbSent   []sentItem
+	keptAlive bool
+	nodeGone  bool
+	closeSeen bool
+	lastSend  time.Duration
 	unblockedAt time.Duration
 }
 
